@@ -136,7 +136,9 @@ def run(tier, seed):
     from ..explore_m import run_m_check
     d = 3 if tier == "quick" else 4
     plan = [("chunk4", "free", d, "quick"), ("chunk4", "cont", d, "quick"), ("empty", "free", d, "lean"), ("expiring", "free", d - 1, "quick"),
-            ("quoted_while_off", "cont", d, "lean"), ("quoted_while_off", "free", d - 1, "quick"), ("partial", "free", d - 1, "quick")]
+            ("quoted_while_off", "cont", d, "lean"), ("quoted_while_off", "free", d - 1, "quick"), ("partial", "free", d - 1, "quick"),
+            # a market 99 steps old with the default storage chunk of 100: the next clock steps grow its series
+            ("step99", "free", d - 1, "quick"), ("step99", "cont", d - 1, "lean")]
     run_m_check(res, m_factory, plan, ALPH, seed, required_witness=WIT + ["tick_across_storage_chunk", "future_queries_refused"])
     return res
 
